@@ -373,14 +373,21 @@ class ATP_Store:
         total_capacity = self.max_atp + self.max_gtp
         total_current = self.atp + self.gtp
 
+        # Astronomically large balances or debts overflow a float; they only need to land on the right side of the thresholds
         if total_capacity == 0:
             ratio = 0.0
         else:
-            ratio = total_current / total_capacity
+            try:
+                ratio = total_current / total_capacity
+            except OverflowError:
+                ratio = float("inf")
 
         # Account for debt
         if self._debt > 0 and total_capacity > 0:
-            ratio -= (self._debt / total_capacity) * 0.5
+            try:
+                ratio -= (self._debt / total_capacity) * 0.5
+            except OverflowError:
+                ratio = float("-inf")
 
         if ratio <= self.STARVING_THRESHOLD:
             self._state = MetabolicState.STARVING
